@@ -20,42 +20,49 @@ package robytes
 //@   props C18
 //@   binds value
 //@   calls toCamelCase
+//@   params value
 //@   ensures [lifts-the-helper-over-the-item|C18] result == toCamelCase(value)
 
 //@ func Capitalize$1
 //@   props C18
 //@   binds value
 //@   calls capitalize
+//@   params value
 //@   ensures [lifts-the-helper-over-the-item|C18] result == capitalize(value)
 
 //@ func Ellipsis$1
 //@   props C18
 //@   binds value length
 //@   calls ellipsis
+//@   params value
 //@   ensures [lifts-the-helper-over-the-item-and-the-length|C18] result == ellipsis(value, length)
 
 //@ func KebabCase$1
 //@   props C18
 //@   binds value
 //@   calls kebabCase
+//@   params value
 //@   ensures [lifts-the-helper-over-the-item|C18] result == kebabCase(value)
 
 //@ func PascalCase$1
 //@   props C18
 //@   binds value
 //@   calls pascalCase
+//@   params value
 //@   ensures [lifts-the-helper-over-the-item|C18] result == pascalCase(value)
 
 //@ func SnakeCase$1
 //@   props C18
 //@   binds value
 //@   calls snakeCase
+//@   params value
 //@   ensures [lifts-the-helper-over-the-item|C18] result == snakeCase(value)
 
 //@ func Random$1
 //@   props C18
 //@   binds size charset
 //@   calls random
+//@   params value
 //@   ensures [draws-a-string-of-the-configured-size-and-charset|C18] result == random(size, charset)
 
 // The random-string helper itself: safety only (the drawing loop uses bit masks and a float logarithm, which are
